@@ -115,3 +115,26 @@ package metadatapart
 //@ effect[C12:size-is-old-size-plus-new-part] every mbs.metadataStore.AppendObject(_, _, _, $o, _) if existingObject != nil && newPartSize != nil
 //@     where $o != nil && $o.Size == existingObject.Size + *newPartSize && $o.Key == key
 //@ ensures[C12:lost-race-is-invalid-write-offset] called(mbs.metadataStore.AppendObject) && result_of(mbs.metadataStore.AppendObject, 1) == storage.ErrCASFailure ==> err == storage.ErrInvalidWriteOffset
+
+// C04. A supplied checksum / Content-MD5 is compared with what was computed from the bytes that were actually written
+// (the streaming digest of this request's body), and nothing is recorded in the metadata store unless that comparison
+// succeeded.
+//@ func (*metadataPartStorage).PutObject$1
+//@ mode effects
+//@ effect[C04:supplied-checksums-judged-against-the-written-bytes] every metadatastore.ValidateChecksums($in, $calc)
+//@     needs before checksumutils.CalculateChecksumsStreaming(_, $rd, _) -> ($size, $c, $e)
+//@     where $e == nil && specSameChecksums($calc, *$c) && $in == checksumInput
+//@ effect[C04:recorded-only-after-validation] every mbs.metadataStore.PutObject(_, _, _, $o, _)
+//@     needs before metadatastore.ValidateChecksums(_, _) -> ($ve) needs before checksumutils.CalculateChecksumsStreaming(_, _, _) -> ($size, $c, $e)
+//@     where $ve == nil && $e == nil && $o != nil && $o.ETag == *$c.ETag && $o.Size == *$size
+
+//@ func (*metadataPartStorage).AppendObject$1
+//@ mode effects
+//@ effect[C04:supplied-checksums-judged-against-the-appended-bytes] every metadatastore.ValidateChecksums($in, $calc)
+//@     needs before checksumutils.CalculateChecksumsStreaming(_, $rd, _) -> ($size, $c, $e)
+//@     where $e == nil && specSameChecksums($calc, *$c) && $in == checksumInput
+//@ effect[C04:append-recorded-only-after-validation] every mbs.metadataStore.AppendObject(_, _, _, $o, _)
+//@     needs before metadatastore.ValidateChecksums(_, _) -> ($ve) where $ve == nil
+//@ effect[C04:appended-etag-is-the-multipart-etag] every mbs.metadataStore.AppendObject(_, _, _, $o, _)
+//@     needs before checksumutils.CalculateMultipartChecksums($parts, $t) -> ($cv, $e)
+//@     where $e == nil && $cv.ETag != nil && $o != nil && $o.ETag == *$cv.ETag && $t == checksumutils.ChecksumTypeFullObject && len($parts) == len($o.Parts)
